@@ -108,8 +108,23 @@ def classification_cases(seed, tier):
             body.append(("assign", v, rhs))
         rng.shuffle(body)
         init = [("assign", v, ("poly", num(rng.choice([2, 3, Fraction(1, 2), 5])))) for v in vs]
+        feats = ["classification"]
+        if rng.random() < 0.25:
+            # a loop constant with a continuous random initial value (drawn once before the loop, never assigned in the body) as a
+            # factor: x = k*x is NOT linear - E(x_n) = x0*E(k**n) - although k never changes
+            fam = rng.choice([("Normal", [num(0), num(1)]), ("Uniform", [num(0), num(2)]), ("Laplace", [num(1), num(1)])])
+            init.append(("assign", "k", ("draw", fam[0], fam[1])))
+            tgt = rng.randrange(len(body))
+            w = rng.choice(vs)
+            v_, rhs_ = body[tgt][1], body[tgt][2]
+            extra_t = binop("*", var("k"), var(w))
+            if rhs_[0] == "poly":
+                body[tgt] = ("assign", v_, ("poly", binop("+", rhs_[1], extra_t)))
+            else:
+                body[tgt] = ("assign", v_, ("choice", [(binop("+", rhs_[1][0][0], extra_t), rhs_[1][0][1])] + list(rhs_[1][1:])))
+            feats.append("classification:continuous-random-loop-constant-factor")
         prog = Program([], init, ("true",), body)
-        out.append({"id": f"classify-{cs}", "kind": "classify", "text": program_str(prog), "ast": prog.to_json(), "features": ["classification"]})
+        out.append({"id": f"classify-{cs}", "kind": "classify", "text": program_str(prog), "ast": prog.to_json(), "features": feats})
     return out
 
 
